@@ -26,6 +26,11 @@ Clauses(r, d, o) ==
      \cup F(o[20] = okI /\ (ok => o[21] = r.end), "C02", "skipvalue_buffer_grown_by_a_handler_traversal")
      \cup F(ok => (o[22] = 1 /\ o[23] = r.end), "C11", "skipvaluefast_buffer_grown_by_a_handler_traversal")
      \cup F(o[24] = 0, "C10", "panic")
+     \* the same input array refilled with this document after a same-length document went through the same Buffer
+     \cup F(o[25] = v, "C01", "valid_same_array_refilled_same_buffer")
+     \cup F(o[26] = okI /\ (ok => o[27] = r.end), "C02", "skipvalue_same_array_refilled_same_buffer")
+     \cup F(ok => (o[28] = 1 /\ o[29] = r.end), "C11", "skipvaluefast_same_array_refilled_same_buffer")
+     \cup F(o[30] = 0, "C10", "panic")
      \cup F(o[16] = 1, "C16", "input_modified")
      \cup F(o[17] = 0, "C10", "panic")
      \cup F((o[6] = 1 => (o[7] >= 0 /\ o[7] <= n)) /\ (o[8] = 1 => (o[9] >= 0 /\ o[9] <= n))
